@@ -186,3 +186,164 @@ func c01SuffixReplay(ops []string) []string {
 	}
 	return nil
 }
+
+// ---------------------------------------------------------------------------------
+// C01 through Session.Store / Session.Load ("returned by a successful encrypt (or store) ... decrypts (or loads)"):
+// every order of store / load / encrypt / decrypt steps up to the depth bound over a storer that keeps the records it
+// is given, two factories, with storer / loader failures as alternative answers.
+// ---------------------------------------------------------------------------------
+
+type c01KV struct {
+	m       map[int]ae.DataRowRecord
+	n       int
+	failing bool
+}
+
+var errC01KV = fmt.Errorf("kv store: injected failure")
+
+func (k *c01KV) Store(_ ctxT, d ae.DataRowRecord) (interface{}, error) {
+	if k.failing {
+		return nil, errC01KV
+	}
+	k.n++
+	k.m[k.n] = *cloneDRR(&d)
+	return k.n, nil
+}
+
+func (k *c01KV) Load(_ ctxT, key interface{}) (*ae.DataRowRecord, error) {
+	if k.failing {
+		return nil, errC01KV
+	}
+	d, ok := k.m[key.(int)]
+	if !ok {
+		return nil, nil
+	}
+	return cloneDRR(&d), nil
+}
+
+func c01StoreLoad(r *Report) {
+	t0 := time.Now()
+	depth := 4
+	if r.Thorough() {
+		depth = 5
+	}
+	ops := []string{"store0", "store1", "store0!", "load0", "load1", "load0!", "loadmissing", "enc-then-kvstore", "tick"}
+	seen := map[string]bool{}
+	seqs := 0
+	var rec func(hist []string)
+	rec = func(hist []string) {
+		if len(hist) > 0 {
+			seqs++
+			if sig, msg := c01StoreLoadRun(hist); sig != "" {
+				if !seen[sig] {
+					seen[sig] = true
+					r.Viols = append(r.Viols, Viol{Property: "C01", Harness: "C01/store-load", Sig: sig + "@store-load", Msg: msg + fmt.Sprintf(" [sequence %v]", hist), Ops: append([]string{}, hist...)})
+				}
+				return
+			}
+		}
+		if len(hist) == depth {
+			return
+		}
+		for _, op := range ops {
+			rec(append(append([]string{}, hist...), op))
+		}
+	}
+	rec(nil)
+	r.Runs = append(r.Runs, RunInfo{Name: "C01/store-load", Executions: seqs, States: seqs, Transitions: int64(seqs), Exhaustive: true,
+		Bound: fmt.Sprintf("all sequences of length <= %d over %d Session.Store / Session.Load steps (two factories, failing storer / loader)", depth, len(ops)), WallS: time.Since(t0).Seconds()})
+	r.Evaluations += seqs
+	r.Transitions += int64(seqs)
+	r.TracesValidated += seqs
+	r.Notes = append(r.Notes, "Session.Store / Session.Load: records handed to a storer load back to the payload in both factories, storer / loader failures are reported")
+}
+
+func c01StoreLoadRun(hist []string) (string, string) {
+	resetGlobals()
+	w := NewWorld()
+	kv := &c01KV{m: map[int]ae.DataRowRecord{}}
+	var fs [2]*ae.SessionFactory
+	var ss [2]*ae.Session
+	for i := range fs {
+		fs[i] = w.NewFactory(SpecDefault)
+		ss[i], _ = fs[i].GetSession("A")
+	}
+	defer func() {
+		for i := range fs {
+			ss[i].Close()
+			fs[i].Close()
+		}
+	}()
+	pays := map[int][]byte{}
+	for step, op := range hist {
+		f := 0
+		if strings.Contains(op, "1") {
+			f = 1
+		}
+		kv.failing = strings.HasSuffix(op, "!")
+		switch {
+		case op == "tick":
+			vclock.Advance((E + 1) * time.Second)
+		case strings.HasPrefix(op, "store"):
+			pl := []byte(fmt.Sprintf("stored-payload-%d", step))
+			orig := append([]byte(nil), pl...)
+			var key interface{}
+			var err error
+			if pan := safe(func() { key, err = ss[f].Store(ctx, pl, kv) }); pan != "" {
+				return "store-panic", "Session.Store panicked: " + pan
+			}
+			if !bytes.Equal(pl, orig) {
+				return "payload-modified", "Session.Store modified the caller's payload"
+			}
+			if kv.failing {
+				if err == nil {
+					return "storer-error-lost", fmt.Sprintf("the storer failed but Session.Store returned key %v and no error", key)
+				}
+				continue
+			}
+			if err != nil {
+				return "store-failed", fmt.Sprintf("Session.Store failed: %v", err)
+			}
+			k, ok := key.(int)
+			if !ok || k != kv.n {
+				return "store-wrong-key", fmt.Sprintf("Session.Store returned key %v, the storer returned %d", key, kv.n)
+			}
+			pays[k] = orig
+			d := kv.m[k]
+			if out, err := ref.Decrypt(tableOf(w.MS), w.KMS.Unwrap, toRefRow(&d)); err != nil || !bytes.Equal(out, orig) {
+				return "stored-record-reference-decrypt", fmt.Sprintf("the record handed to the storer does not decrypt to the payload by the reference: %v", err)
+			}
+		case op == "enc-then-kvstore":
+			pl := []byte(fmt.Sprintf("encrypted-payload-%d", step))
+			d, err := ss[0].Encrypt(ctx, append([]byte(nil), pl...))
+			if err != nil {
+				return "encrypt-failed", err.Error()
+			}
+			k, _ := kv.Store(ctx, *d)
+			pays[k.(int)] = pl
+		case op == "loadmissing":
+			out, err := ss[f].Load(ctx, 9999, kv)
+			if err == nil {
+				return "load-missing-succeeded", fmt.Sprintf("Session.Load of a key the loader does not have returned %q and no error", out)
+			}
+		case strings.HasPrefix(op, "load"):
+			for k, want := range pays {
+				var out []byte
+				var err error
+				if pan := safe(func() { out, err = ss[f].Load(ctx, k, kv) }); pan != "" {
+					return "load-panic", "Session.Load panicked: " + pan
+				}
+				if kv.failing {
+					if err == nil {
+						return "loader-error-lost", "the loader failed but Session.Load returned no error"
+					}
+					continue
+				}
+				if err != nil || !bytes.Equal(out, want) {
+					return "load-wrong", fmt.Sprintf("Session.Load(%d) by factory %d returned %q, %v; want %q", k, f, out, err, want)
+				}
+			}
+		}
+	}
+	return "", ""
+}
